@@ -89,15 +89,15 @@ Section Solve.
   Qed.
 
   Lemma nv_all : forall es val v x, (forall e, In e es -> fst e <> v) ->
-    wsum es v = 0 * 0 + wsum es v /\ load es (upd val v x) = load es val /\ ufun s es (upd val v x) = ufun s es val /\ umax s es (upd val v x) = umax s es val.
+    load es (upd val v x) = load es val /\ ufun s es (upd val v x) = ufun s es val /\ umax s es (upd val v x) = umax s es val.
   Proof.
     induction es as [|[u w] r IH]; intros val v x H; [repeat split; reflexivity|].
     assert (Hu : Nat.eqb u v = false) by (apply Nat.eqb_neq; apply (H (u, w)); now left).
-    destruct (IH val v x) as [_ [I2 [I3 I4]]]; [intros; apply H; now right|].
+    destruct (IH val v x) as [I2 [I3 I4]]; [intros; apply H; now right|].
     cbn. unfold unfixed, upd. rewrite Hu. fold (upd val v x). rewrite I2.
     change (ufun s r (fun j => if Nat.eqb j v then x else val j)) with (ufun s r (upd val v x)).
     change (umax s r (fun j => if Nat.eqb j v then x else val j)) with (umax s r (upd val v x)).
-    rewrite I3, I4. repeat split; try reflexivity. ring_simplify. reflexivity.
+    rewrite I3, I4. repeat split; reflexivity.
   Qed.
   Lemma nv_wsum : forall es v, (forall e, In e es -> fst e <> v) -> wsum es v == 0.
   Proof.
@@ -162,7 +162,7 @@ Section Solve.
                   load (m_elems (cn s c)) val' == load (m_elems (cn s c)) (st_val st) /\
                   ufun s (m_elems (cn s c)) val' == ufun s (m_elems (cn s c)) (st_val st) /\
                   umax s (m_elems (cn s c)) val' == umax s (m_elems (cn s c)) (st_val st)).
-    { intros c Hh. assert (Hne := has_var_false _ _ Hh). destruct (nv_all (m_elems (cn s c)) (st_val st) v x Hne) as [_ [N2 [N3 N4]]].
+    { intros c Hh. assert (Hne := has_var_false _ _ Hh). destruct (nv_all (m_elems (cn s c)) (st_val st) v x Hne) as [N2 [N3 N4]].
       fold val' in N2, N3, N4. rewrite N2, N3, N4. split; [apply nv_wsum; exact Hne|]. repeat split; reflexivity. }
     constructor; cbn [st_val st_rem st_usage st_light]; fold val'.
     - intros c Hs. rewrite Hs. rewrite andb_true_r. destruct (has_var (m_elems (cn s c)) v) eqn:Eh.
@@ -230,11 +230,18 @@ Section Solve.
         intros c' [Hc|Hc] E; [subst c'; congruence|apply H2; assumption].
   Qed.
 
+  Definition mb_step (L : Q) (m : option Q) (v : nat) : option Q :=
+    if qposb (vbound s v) && negb (Qle_bool L (vbound s v * pen s v))
+    then match m with None => Some (vbound s v * pen s v) | Some x => Some (qmn x (vbound s v * pen s v)) end
+    else m.
+  Lemma mb_some : forall L r q0, fold_left (mb_step L) r (Some q0) <> None.
+  Proof.
+    intros L. induction r as [|u r IH]; cbn; intros q0; [discriminate|]. unfold mb_step at 2.
+    destruct (qposb (vbound s u) && negb (Qle_bool L (vbound s u * pen s u))); apply IH.
+  Qed.
   Lemma min_bound_spec : forall L vs acc b,
     match acc with None => True | Some a => 0 < a /\ a < L end ->
-    fold_left (fun m v => if qposb (vbound s v) && negb (Qle_bool L (vbound s v * pen s v))
-                          then match m with None => Some (vbound s v * pen s v) | Some x => Some (qmn x (vbound s v * pen s v)) end
-                          else m) vs acc = b ->
+    fold_left (mb_step L) vs acc = b ->
     match b with
     | Some a => 0 < a /\ a < L
     | None => forall v, In v vs -> 0 < vbound s v -> L <= vbound s v * pen s v
@@ -242,23 +249,40 @@ Section Solve.
   Proof.
     intros L. induction vs as [|v r IH]; cbn [fold_left]; intros acc b Ha H.
     - subst b. destruct acc; [exact Ha|intros v []].
-    - destruct (qposb (vbound s v) && negb (Qle_bool L (vbound s v * pen s v))) eqn:E.
+    - unfold mb_step at 2 in H. destruct (qposb (vbound s v) && negb (Qle_bool L (vbound s v * pen s v))) eqn:E.
       + apply andb_prop in E. destruct E as [E1 E2]. apply qposb_true in E1. apply negb_true_iff in E2.
         assert (N : ~ L <= vbound s v * pen s v) by (intro X; apply Qle_bool_iff in X; congruence).
         assert (P := pen_pos v). assert (G : 0 < vbound s v * pen s v /\ vbound s v * pen s v < L) by (split; nra).
-        assert (K := IH _ b (match acc with None => G | Some a => _ end)).
         destruct acc as [a|].
-        * specialize (IH (Some (qmn a (vbound s v * pen s v))) b). cbn in IH.
-          assert (X : 0 < qmn a (vbound s v * pen s v) /\ qmn a (vbound s v * pen s v) < L) by (destruct (qmn_cases a (vbound s v * pen s v)) as [Y|Y]; rewrite Y; tauto).
-          specialize (IH X H). destruct b; [exact IH|]. exfalso. clear - H X.
-          revert H. generalize (qmn a (vbound s v * pen s v)). induction r as [|u r IHr]; cbn; intros q0 H; [discriminate|].
-          destruct (qposb (vbound s u) && negb (Qle_bool L (vbound s u * pen s u))); eapply IHr; eassumption.
-        * specialize (IH (Some (vbound s v * pen s v)) b G H). destruct b; [exact IH|]. exfalso. clear - H.
-          revert H. generalize (vbound s v * pen s v). induction r as [|u r IHr]; cbn; intros q0 H; [discriminate|].
-          destruct (qposb (vbound s u) && negb (Qle_bool L (vbound s u * pen s u))); eapply IHr; eassumption.
+        * assert (X : 0 < qmn a (vbound s v * pen s v) /\ qmn a (vbound s v * pen s v) < L) by (destruct (qmn_cases a (vbound s v * pen s v)) as [Y|Y]; rewrite Y; tauto).
+          specialize (IH (Some (qmn a (vbound s v * pen s v))) b X H). destruct b; [exact IH|]. exfalso. eapply mb_some; exact H.
+        * specialize (IH (Some (vbound s v * pen s v)) b G H). destruct b; [exact IH|]. exfalso. eapply mb_some; exact H.
       + specialize (IH acc b Ha H). destruct b; [exact IH|]. intros u [Hu|Hu] Hb; [|apply IH; assumption].
         subst u. apply andb_false_iff in E. destruct E as [E|E]; [apply qposb_false in E; lra|].
         apply negb_false_iff in E. apply Qle_bool_iff in E. exact E.
+  Qed.
+
+  Lemma fold_fix_bound : forall b vs st, 0 < b -> Inv st b ->
+    Inv (fold_left (fun st v => if Qeq_bool b (vbound s v * pen s v) then fix_var s v (vbound s v) st else st) vs st) b.
+  Proof.
+    intros b. induction vs as [|v r IH]; intros st B1 Ib; [exact Ib|].
+    cbn [fold_left]. apply IH; [exact B1|]. destruct (Qeq_bool b (vbound s v * pen s v)) eqn:E; [|exact Ib].
+    apply Qeq_bool_iff in E. assert (P := pen_pos v). apply fix_var_inv; try assumption.
+    - nra.
+    - rewrite Qmult_comm. lra.
+    - intro; lra.
+  Qed.
+  Lemma fold_fix_level : forall L1 vs st, 0 < L1 -> Inv st L1 ->
+    (forall v, In v vs -> 0 < vbound s v -> L1 <= vbound s v * pen s v) ->
+    Inv (fold_left (fun st v => fix_var s v (L1 * ip s v) st) vs st) L1.
+  Proof.
+    intros L1. induction vs as [|v r IH]; intros st H1 I1 Eb; [exact I1|].
+    cbn [fold_left]. apply IH; [exact H1| |intros u Hu; apply Eb; now right].
+    assert (P := pen_pos v). assert (Q := ip_pos v). assert (PI := pen_ip v). apply fix_var_inv; try assumption.
+    - nra.
+    - rewrite Qmult_comm, <- Qmult_assoc, (Qmult_comm (ip s v)), PI. lra.
+    - intro Hb. assert (X := Eb v (or_introl eq_refl) Hb).
+      assert (L1 * ip s v <= (vbound s v * pen s v) * ip s v) by nra. rewrite <- Qmult_assoc, PI in H. lra.
   Qed.
 
   Lemma round_inv : forall st L, Inv st L -> exists L', Inv (round s st) L'.
@@ -269,28 +293,15 @@ Section Solve.
     assert (I1 : Inv st L1).
     { apply (relevel st L L1 I); [lra|]. intros c E.
       destruct (le_lt_dec (ncn s) c) as [Hc|Hc].
-      - (* outside the table: no element, usage 0 *)
-        exfalso. destruct (v_lit st L I c E) as [_ U]. rewrite (v_usage st L I c) in U. unfold cn in U. rewrite nth_overflow in U by exact Hc. cbn in U. lra.
+      - exfalso. destruct (v_lit st L I c E) as [_ U]. rewrite (v_usage st L I c) in U. unfold cn in U. rewrite nth_overflow in U by exact Hc. cbn in U. lra.
       - assert (X := H2 c). rewrite in_seq in X. specialize (X ltac:(lia) E). destruct (v_lit st L I c E) as [R U].
-        unfold ratio in X. apply Qle_shift_div_l in X; [lra|exact U]. }
+        unfold ratio in X. assert (Y : st_rem st c / st_usage st c * st_usage st c == st_rem st c) by (field; lra).
+        assert (Z : L1 * st_usage st c <= st_rem st c / st_usage st c * st_usage st c) by (apply Qmult_le_compat_r; [exact X|lra]). lra. }
     set (vs := sat_vars s st L1).
-    destruct (min_bound s vs L1) as [b|] eqn:Eb; unfold min_bound in Eb; apply min_bound_spec in Eb; try exact Logic.I.
-    - exists b. destruct Eb as [B1 B2].
-      assert (Ib : Inv st b).
-      { apply (relevel st L1 b I1); [lra|]. intros c E. assert (A := v_level st L1 I1 c). destruct (v_lit st L1 I1 c E) as [_ U]. nra. }
-      clearbody vs. revert st Ib. clear - pen_pos w_nonneg cap_pos cap_nonneg B1 B2. induction vs as [|v r IH]; intros st Ib; [exact Ib|].
-      cbn [fold_left]. apply IH. destruct (Qeq_bool b (vbound s v * pen s v)) eqn:E; [|exact Ib].
-      apply Qeq_bool_iff in E. assert (P := pen_pos v). apply fix_var_inv; try assumption.
-      + nra.
-      + rewrite Qmult_comm. lra.
-      + intro; lra.
-    - exists L1. clearbody vs. revert st I1 Eb. clear - pen_pos w_nonneg cap_pos cap_nonneg H1. induction vs as [|v r IH]; intros st I1 Eb; [exact I1|].
-      cbn [fold_left]. apply IH; [|intros u Hu; apply Eb; now right].
-      assert (P := pen_pos v). assert (Q := ip_pos v). assert (PI := pen_ip v). apply fix_var_inv; try assumption.
-      + nra.
-      + rewrite Qmult_comm, <- Qmult_assoc, (Qmult_comm (ip s v)), PI. lra.
-      + intro Hb. assert (X := Eb v (or_introl eq_refl) Hb).
-        assert (L1 * ip s v <= (vbound s v * pen s v) * ip s v) by nra. rewrite <- Qmult_assoc, PI in H. lra.
+    destruct (min_bound s vs L1) as [b|] eqn:Eb; unfold min_bound in Eb; apply (min_bound_spec L1 vs None) in Eb; try exact Logic.I.
+    - exists b. destruct Eb as [B1 B2]. apply fold_fix_bound; [exact B1|].
+      apply (relevel st L1 b I1); [lra|]. intros c E. assert (A := v_level st L1 I1 c). destruct (v_lit st L1 I1 c E) as [_ U]. nra.
+    - exists L1. apply fold_fix_level; assumption.
   Qed.
 
   Lemma rounds_inv : forall fuel st L, Inv st L -> exists L', Inv (rounds fuel s st) L'.
@@ -310,3 +321,82 @@ Section Solve.
     - apply (v_val st L I).
   Qed.
 End Solve.
+
+(** * the allocation checker decides the inequalities of C15 *)
+Definition cn_feasible (tol : Q) (val : nat -> Q) (k : mcn) : Prop :=
+  if m_shared k then load (m_elems k) val <= m_bound k + tol * m_bound k
+  else forall e, In e (m_elems k) -> snd e * val (fst e) <= m_bound k + tol * m_bound k.
+Definition var_feasible (tol : Q) (s : msys) (val : nat -> Q) (v : nat) : Prop :=
+  (pen s v <= 0 -> val v == 0) /\
+  (consumes s v = true -> 0 <= val v /\ (0 < vbound s v -> val v <= vbound s v + tol * vbound s v)).
+Definition alloc_feasible (tol : Q) (s : msys) (val : nat -> Q) : Prop :=
+  (forall k, In k (m_cns s) -> cn_feasible tol val k) /\ (forall v, (v < length (m_vars s))%nat -> var_feasible tol s val v).
+
+Theorem alloc_feasible_b_ok : forall tol s val, alloc_feasible_b tol s val = true <-> alloc_feasible tol s val.
+Proof.
+  intros tol s val. unfold alloc_feasible_b, alloc_feasible. rewrite andb_true_iff, !forallb_forall.
+  assert (A : forall k, cn_feasible_b tol val k = true <-> cn_feasible tol val k).
+  { intro k. unfold cn_feasible_b, cn_feasible. destruct (m_shared k); [apply Qle_bool_iff|].
+    rewrite forallb_forall. split; intros H e He; apply Qle_bool_iff, H, He. }
+  assert (B : forall v, var_feasible_b tol s val v = true <-> var_feasible tol s val v).
+  { intro v. unfold var_feasible_b, var_feasible. rewrite andb_true_iff.
+    assert (D : (qposb (pen s v) || Qeq_bool (val v) 0) = true <-> (pen s v <= 0 -> val v == 0)).
+    { rewrite orb_true_iff, Qeq_bool_iff. destruct (qposb (pen s v)) eqn:E.
+      - apply qposb_true in E. split; [intros _ H; lra|intros _; now left].
+      - apply qposb_false in E. split; [intros [H|H] _; [discriminate|exact H]|intro H; right; apply H; exact E]. }
+    rewrite D. apply and_iff_compat_l. destruct (consumes s v); cbn [negb orb].
+    - rewrite andb_true_iff, orb_true_iff, negb_true_iff, !Qle_bool_iff. split.
+      + intros [H1 H2] _. split; [exact H1|]. intro Hb. destruct H2 as [H2|H2]; [apply qposb_false in H2; lra|exact H2].
+      + intro H. destruct (H eq_refl) as [H1 H2]. split; [exact H1|]. destruct (qposb (vbound s v)) eqn:E; [right; apply H2; apply qposb_true; exact E|now left].
+    - split; [discriminate|reflexivity]. }
+  split.
+  - intros [H1 H2]. split; [intros k Hk; apply A, H1, Hk|intros v Hv; apply B, H2; apply in_seq; lia].
+  - intros [H1 H2]. split; [intros k Hk; apply A, H1, Hk|intros v Hv; apply B, H2; apply in_seq in Hv; lia].
+Qed.
+
+(** * what the bottleneck checker establishes (C16): soundness *)
+Definition is_bottleneck (tol : Q) (s : msys) (val : nat -> Q) (v : nat) : Prop :=
+  consumes s v = false \/ (0 < vbound s v /\ vbound s v - tol * vbound s v <= val v) \/
+  exists k, In k (m_cns s) /\ (exists e, In e (m_elems k) /\ fst e = v /\ 0 < snd e) /\
+            m_bound k - tol * m_bound k <= cn_load k val /\
+            forall e, In e (m_elems k) -> 0 < snd e -> pen s (fst e) * val (fst e) <= pen s v * val v + tol * (pen s v * val v).
+Theorem bottleneck_b_sound : forall tol s val, bottleneck_b tol s val = true ->
+  forall v, (v < length (m_vars s))%nat -> is_bottleneck tol s val v.
+Proof.
+  intros tol s val H v Hv. unfold bottleneck_b in H. rewrite forallb_forall in H. specialize (H v ltac:(apply in_seq; lia)).
+  unfold var_bottleneck_b in H. apply orb_prop in H. destruct H as [H|H]; [apply orb_prop in H; destruct H as [H|H]|].
+  - left. apply negb_true_iff in H. exact H.
+  - right; left. unfold at_bound_b in H. apply andb_prop in H. destruct H as [H1 H2]. apply qposb_true in H1. apply Qle_bool_iff in H2. tauto.
+  - right; right. apply existsb_exists in H. destruct H as [k [Hk H]]. apply andb_prop in H. destruct H as [H H3]. apply andb_prop in H. destruct H as [H1 H2].
+    exists k. split; [exact Hk|]. split; [|split].
+    + apply existsb_exists in H1. destruct H1 as [e [He H1]]. apply andb_prop in H1. destruct H1 as [H1 H1']. exists e.
+      split; [exact He|]. split; [apply Nat.eqb_eq; exact H1|apply qposb_true; exact H1'].
+    + unfold saturated_b in H2. apply Qle_bool_iff in H2. exact H2.
+    + intros e He Hw. unfold maximal_on_b in H3. rewrite forallb_forall in H3. specialize (H3 e He). apply orb_prop in H3.
+      destruct H3 as [H3|H3]; [apply negb_true_iff, qposb_false in H3; lra|apply Qle_bool_iff; exact H3].
+Qed.
+
+Definition is_bmf_share (tol : Q) (s : msys) (val : nat -> Q) (v : nat) : Prop :=
+  consumes s v = false \/ (0 < vbound s v /\ vbound s v - tol * vbound s v <= val v) \/
+  exists k, In k (m_cns s) /\ (exists e, In e (m_elems k) /\ fst e = v /\ 0 < snd e) /\
+            m_bound k - tol * m_bound k <= cn_load k val /\
+            ((forall e, In e (m_elems k) -> 0 < snd e ->
+                pen s (fst e) * snd e * val (fst e) <= share_on s val k v + tol * share_on s val k v) \/
+             (m_shared k = false /\ m_bound k - tol * m_bound k <= wsum (m_elems k) v * val v)).
+Theorem bmf_b_sound : forall tol s val, bmf_b tol s val = true ->
+  forall v, (v < length (m_vars s))%nat -> is_bmf_share tol s val v.
+Proof.
+  intros tol s val H v Hv. unfold bmf_b in H. rewrite forallb_forall in H. specialize (H v ltac:(apply in_seq; lia)).
+  unfold var_bmf_b in H. apply orb_prop in H. destruct H as [H|H]; [apply orb_prop in H; destruct H as [H|H]|].
+  - left. apply negb_true_iff in H. exact H.
+  - right; left. unfold at_bound_b in H. apply andb_prop in H. destruct H as [H1 H2]. apply qposb_true in H1. apply Qle_bool_iff in H2. tauto.
+  - right; right. apply existsb_exists in H. destruct H as [k [Hk H]]. apply andb_prop in H. destruct H as [H H3]. apply andb_prop in H. destruct H as [H1 H2].
+    exists k. split; [exact Hk|]. split; [|split].
+    + apply existsb_exists in H1. destruct H1 as [e [He H1]]. apply andb_prop in H1. destruct H1 as [H1 H1']. exists e.
+      split; [exact He|]. split; [apply Nat.eqb_eq; exact H1|apply qposb_true; exact H1'].
+    + unfold saturated_b in H2. apply Qle_bool_iff in H2. exact H2.
+    + apply orb_prop in H3. destruct H3 as [H3|H3].
+      * left. intros e He Hw. unfold maximal_share_b in H3. rewrite forallb_forall in H3. specialize (H3 e He). apply orb_prop in H3.
+        destruct H3 as [H3|H3]; [apply negb_true_iff, qposb_false in H3; lra|apply Qle_bool_iff; exact H3].
+      * right. apply andb_prop in H3. destruct H3 as [H3 H4]. apply negb_true_iff in H3. apply Qle_bool_iff in H4. split; assumption.
+Qed.
